@@ -1,7 +1,113 @@
 """C17 (second half): a layout, step or inspection containing a malformed rule
-cannot be constructed or loaded. Filled in once the metadata model exists."""
-from harness import core
+cannot be constructed or loaded.  Every position of every rule list of random
+layouts receives one malformed rule; `Step(...)`, `Inspection(...)`,
+`Layout.read`, `Metadata.load` (traditional) and `Envelope.get_payload` must
+raise; the Lean `readPayload` must agree."""
+import base64
+import copy
+import json
+import os
+import shutil
+import tempfile
+
+from harness import core, world as W
+
+BAD_RULES = [[], ["MATCH"], ["CREATE"], ["FOO", "x"], ["CREATE", "a", "b"], ["MATCH", "x", "WITH", "PRODUCTS", "FROM"],
+             ["MATCH", "x", "WITH", "NOTHING", "FROM", "s"], ["MATCH", "x", "IN", "a", "WITH", "PRODUCTS", "IN", "b", "FRM", "s"],
+             ["ALLOW", 7], "ALLOW *", None, ["MATCH", "x", "FROM", "s"], ["İN", "x"]]
+GOOD_RULES = [["ALLOW", "*"], ["MATCH", "*", "WITH", "PRODUCTS", "FROM", "s0"], ["require", "MATCH"], ["DISALLOW", "*"],
+              ["MATCH", "a", "IN", "b", "WITH", "MATERIALS", "IN", "c", "FROM", "d"], ["create", ""]]
+
+
+def gen_layout(rng):
+    k = W.pool()[0]
+    steps = []
+    for j in range(rng.randrange(1, 4)):
+        steps.append(W.step_payload("s%d" % j, [k.keyid], 1,
+                                    [list(r) for r in rng.sample(GOOD_RULES, rng.randrange(0, 4))],
+                                    [list(r) for r in rng.sample(GOOD_RULES, rng.randrange(0, 4))]))
+    insp = []
+    for j in range(rng.randrange(0, 3)):
+        insp.append(W.inspection_payload("i%d" % j, ["true"],
+                                         [list(r) for r in rng.sample(GOOD_RULES, rng.randrange(0, 3))],
+                                         [list(r) for r in rng.sample(GOOD_RULES, rng.randrange(0, 3))]))
+    return W.layout_payload(steps, insp, {k.keyid: k.pub}, "2031-01-01T00:00:00Z")
+
+
+def positions(payload):
+    for kind in ("steps", "inspect"):
+        for i, item in enumerate(payload[kind]):
+            for f in ("expected_materials", "expected_products"):
+                for r in range(len(item[f]) + 1):
+                    yield kind, i, f, r
+
+
+def impl_outcomes(payload, d):
+    from in_toto.models.layout import Layout, Step, Inspection
+    from in_toto.models.metadata import Metadata
+    out = {}
+
+    def cls(fn):
+        try:
+            fn()
+            return "ok"
+        except Exception as e:  # pylint: disable=broad-except
+            return W.exc_class(e)
+    out["Layout.read"] = cls(lambda: Layout.read(copy.deepcopy(payload)))
+    p = os.path.join(d, "l.layout")
+    json.dump({"signatures": [], "signed": payload}, open(p, "w"))
+    out["Metadata.load"] = cls(lambda: Metadata.load(p))
+    env = {"payload": base64.b64encode(json.dumps(payload).encode()).decode(), "payloadType": W.PAYLOAD_TYPE, "signatures": []}
+    json.dump(env, open(p, "w"))
+    out["Envelope.get_payload"] = cls(lambda: Metadata.load(p).get_payload())
+    return out
+
+
+def run_shard(seed, idx, n):
+    from in_toto.models.layout import Step, Inspection
+    res = core.Result()
+    rng = core.rng_for(seed, "c17load", idx)
+    d = tempfile.mkdtemp(prefix="verif-c17-")
+    drv = core.driver()
+    try:
+        for _ in range(n):
+            base = gen_layout(rng)
+            cases = [("none", base)]
+            pos = list(positions(base))
+            for kind, i, f, r in (pos if len(pos) <= 12 else rng.sample(pos, 12)):
+                p = copy.deepcopy(base)
+                bad = rng.choice(BAD_RULES)
+                p[kind][i][f].insert(r, bad)
+                cases.append(({"where": [kind, i, f, r], "rule": bad}, p))
+            for desc, p in cases:
+                i_out = impl_outcomes(p, d)
+                m = drv.call({"op": "read_payload", "v": W.tagged(p)})
+                m_ok = "ok" in m
+                agreed = all((v == "ok") == m_ok for v in i_out.values())
+                res.case({"malformed": desc, "impl": i_out, "model": "ok" if m_ok else m["err"]}, desc != "none", agreed, sample_cap=2)
+                res.count("load_" + ("ok" if i_out["Layout.read"] == "ok" else i_out["Layout.read"]))
+                if not agreed:
+                    res.fail("disagree", {"op": "read_payload", "payload": p, "malformed": desc},
+                             {"op": "read_payload", "impl": i_out, "model": m})
+                if desc != "none":
+                    if any(v == "ok" for v in i_out.values()):
+                        res.fail("oracle", {"op": "read_payload", "payload": p, "malformed": desc},
+                                 {"why": "a layout containing a malformed rule was constructed / loaded", "impl": i_out})
+                    # the item on its own
+                    kind, i = desc["where"][0], desc["where"][1]
+                    item = copy.deepcopy(p[kind][i]); item.pop("_type", None)
+                    try:
+                        (Step if kind == "steps" else Inspection)(**item)
+                        res.fail("oracle", {"op": "construct_item", "item": item},
+                                 {"why": "a step / inspection with a malformed rule was constructed"})
+                    except Exception:  # pylint: disable=broad-except
+                        pass
+                    res.evaluations += 1
+    finally:
+        shutil.rmtree(d, ignore_errors=True)
+    return res
 
 
 def run(tier, seed):
-    return core.Result()
+    n = 3 if tier == "quick" else 40
+    return core.parallel(core.call, [(run_shard, (seed, i, n)) for i in range(16)])
